@@ -228,14 +228,8 @@ theorem holds_unique {P : Prog} {σ : Srcs} {m : Maps} {r1 r2 : Read} (ht : r1.t
       obtain ⟨R2, hR2⟩ := h2
       rw [(BigE.det hR1 hR2).1]
 
-theorem kind_derived {rd : Read} {q : NodeId} (h : rd.kind = .derived q) : ∃ w, rd = .node q w := by
-  cases rd with
-  | src k o =>
-    simp only [Read.kind] at h
-    by_cases ho : o.1.isSome = true
-    · rw [if_pos ho] at h; cases h
-    · rw [if_neg ho] at h; cases h
-  | node x w => simp only [Read.kind] at h; cases h; exact ⟨w, rfl⟩
+theorem kind_derived {rd : Read} {q : NodeId} (h : rd.kind = .derived q) : ∃ w, rd = .node q w :=
+  kind_derived' h
 
 /-- the dependencies recorded before `d` are unchanged: the current evaluation of the node (`hnow`)
 still calls the callee `d` stands for, so that callee evaluates under the current sources -/
